@@ -1,2 +1,100 @@
-(* C01 -- Stack content follows ordered-list semantics under any operation history *)
-From Stackage Require Import Base Generated StackImpl StackSpec.
+(* C01 -- Stack content follows ordered-list semantics under any operation
+   history.  Property theorems only; proofs live in StackRefine.v. *)
+From Stackage Require Import Base Generated StackImpl StackSpec StackSpecLemmas StackRefine.
+Open Scope Z_scope.
+
+(* For every element type with a unique nil value, every push policy table,
+   every configuration (kind, LIFO/FIFO, capacity, option bits), every
+   well-formed content and EVERY finite history of the 24 operations whose
+   index arguments are Go ints: the raw-slot model of stack.go never panics,
+   never leaves the shape "configuration slot followed by element slots",
+   respects the capacity, ends in exactly the state the ordered-list
+   specification ends in, and every call returns exactly what the
+   specification returns (the configuration record is never handed out:
+   abs_out maps such an output to None). *)
+Theorem c01_history_refines :
+  forall (V : Type) (nilv : V) (isnil isstack : V -> bool) (pol : N -> V -> option N),
+    isnil nilv = true -> (forall v, isnil v = true -> v = nilv) ->
+    forall (ops : list (op V)) (m : Z) (c : scfg) (els : list V),
+      cap_ok c (zlen els) -> zlen els <= m -> m + growth V ops < Bnd -> Forall (op_i64 V) ops ->
+      exists c' els' outs souts,
+        run V nilv isnil isstack pol (mk V c els) ops = Ok (mk V c' els', outs) /\
+        cap_ok c' (zlen els') /\ zlen els' <= m + growth V ops /\
+        srun V nilv isnil isstack pol (abs V c els) (map (to_sop V) ops) = (abs V c' els', souts) /\
+        map (abs_out V) outs = map Some souts.
+Proof. exact run_refines. Qed.
+Print Assumptions c01_history_refines.
+
+(* the same, started from any constructor call *)
+Theorem c01_from_constructor :
+  forall (V : Type) (nilv : V) (isnil isstack : V -> bool) (pol : N -> V -> option N),
+    isnil nilv = true -> (forall v, isnil v = true -> v = nilv) ->
+    forall (t : N) (fifo : bool) (cp : option Z) (ops : list (op V)),
+      match cp with Some k => k < Bnd - 1 | None => True end ->
+      growth V ops < Bnd -> Forall (op_i64 V) ops ->
+      exists c c' els' outs souts,
+        new_stack V t fifo cp = mk V c [] /\
+        run V nilv isnil isstack pol (new_stack V t fifo cp) ops = Ok (mk V c' els', outs) /\
+        srun V nilv isnil isstack pol (abs V c []) (map (to_sop V) ops) = (abs V c' els', souts) /\
+        map (abs_out V) outs = map Some souts.
+Proof.
+  intros V nilv isnil isstack pol H1 H2 t fifo cp ops Hcp Hg Hi.
+  destruct (new_stack_wf V nilv isnil H1 t fifo cp Hcp) as (c & E & Hc & _).
+  destruct (run_refines V nilv isnil isstack pol H1 H2 ops 0 c [] Hc ltac:(reflexivity) ltac:(lia) Hi)
+    as (c' & els' & outs & souts & R & _ & _ & S & A).
+  exists c, c', els', outs, souts. rewrite E. auto.
+Qed.
+Print Assumptions c01_from_constructor.
+
+(* the specification is the natural object *)
+Theorem c01_spec_reverse_involutive :
+  forall V nilv isnil isstack pol (s : sstate V),
+    s_elems (fst (sstep V nilv isnil isstack pol (fst (sstep V nilv isnil isstack pol s SReverse)) SReverse)) = s_elems s.
+Proof. exact reverse_involutive. Qed.
+Print Assumptions c01_spec_reverse_involutive.
+
+Theorem c01_spec_pop_after_push_lifo :
+  forall V nilv isnil isstack pol c els x,
+    has (a_opts c) f_ronly = false -> a_fifo c = false -> a_ppf c = None ->
+    has (a_opts c) f_nnest = false -> a_cap c = None ->
+    sstep V nilv isnil isstack pol (fst (sstep V nilv isnil isstack pol {| s_cfg := c; s_elems := els |} (SPush [x]))) SPop
+    = ({| s_cfg := c; s_elems := els |}, XVal x (negb (isnil x))).
+Proof. exact pop_after_push_lifo. Qed.
+Print Assumptions c01_spec_pop_after_push_lifo.
+
+Theorem c01_spec_pop_fifo_oldest :
+  forall V nilv isnil isstack pol c v t,
+    has (a_opts c) f_ronly = false -> a_fifo c = true ->
+    sstep V nilv isnil isstack pol {| s_cfg := c; s_elems := v :: t |} SPop
+    = ({| s_cfg := c; s_elems := t |}, XVal v (negb (isnil v))).
+Proof. exact pop_fifo_oldest. Qed.
+Print Assumptions c01_spec_pop_fifo_oldest.
+
+(* Non-vacuity: a 5-element FIFO stack with a nil element and capacity 6
+   meets the hypotheses, and a concrete interleaved history evaluates (inside
+   Coq) to the same outputs in model and specification. *)
+Definition ex_cfg : scfg := {| k_typ := 1; k_cap := 7; k_opt := 16; k_ord := true; k_err := None; k_ppf := None |}.
+Definition ex_els : list (option Z) := [Some 1; None; Some 3; Some 4; Some 5].
+Definition ex_isnil (v : option Z) := match v with None => true | _ => false end.
+Definition ex_ops : list (op (option Z)) :=
+  [OPush [Some 6; Some 7]; OPop; OInsert (Some 9) 1; ORemove (-1); OSwap 0 2; OReverse; OIndex (-2); OFront; OReset; OLen].
+
+Example c01_hypotheses_satisfiable :
+  cap_ok ex_cfg (zlen ex_els) /\ zlen ex_els <= 5 /\ 5 + growth _ ex_ops < Bnd /\ Forall (op_i64 _) ex_ops /\
+  ex_isnil None = true /\ (forall v, ex_isnil v = true -> v = None).
+Proof.
+  split; [right; vm_compute; repeat split; congruence|].
+  split; [vm_compute; congruence|].
+  split; [vm_compute; reflexivity|].
+  split; [repeat constructor; unfold in_i64, two63; lia|].
+  split; [reflexivity|].
+  intros [z|]; [discriminate|reflexivity].
+Qed.
+
+Definition res_outs {T U} (r : res (T * U)) : option U := match r with Ok (_, o) => Some o | _ => None end.
+
+Example c01_concrete_run :
+  option_map (map (abs_out _))
+    (res_outs (run _ None ex_isnil (fun _ => false) (fun _ _ => None) (mk _ ex_cfg ex_els) ex_ops)) =
+  Some (map Some (snd (srun _ None ex_isnil (fun _ => false) (fun _ _ => None) (abs _ ex_cfg ex_els) (map (to_sop _) ex_ops)))).
+Proof. vm_compute. reflexivity. Qed.
